@@ -208,7 +208,57 @@ fn reference_key<V: Fv>(idx: usize, nmsgs: usize, vseed: u64, rep: &mut Report) 
     rep.nontrivial(&pkb[..32]);
 }
 
+/// Signature SHAPES that honest signing produces once in millions, crafted (public key solved
+/// from the hash): s2 filling its buffer to the last bit with a quiet tail. Whatever the
+/// reference verifier accepts, falcon-rust must accept (and vice versa).
+fn crafted_shapes<V: Fv>(ctx: &Ctx, rep: &mut Report) {
+    use rand::Rng;
+    let mut rng = rng_for(ctx.seed, &format!("c16-shapes-{}", V::NAME));
+    let (n, l) = (V::N, V::SIG_LEN - 41);
+    for rep_i in 0..ctx.sz(12, 200) {
+        let extra = 8 * l - 9 * n;
+        let tail = [8usize, 9, 16, 40][rep_i % 4];
+        let mut s2: Vec<i64> = (0..n).map(|_| rng.gen_range(-100i64..=100)).collect();
+        let mut idx: Vec<usize> = (0..n - tail).collect();
+        for k in (1..idx.len()).rev() {
+            let j = rng.gen_range(0..=k);
+            idx.swap(k, j);
+        }
+        for &i in idx.iter().take(extra) {
+            s2[i] = rng.gen_range(128i64..=255) * if rng.gen() { 1 } else { -1 };
+        }
+        if crate::refs::spec::compressed_bits(&s2) != 8 * l {
+            continue;
+        }
+        let s1: Vec<i64> = (0..n).map(|_| rng.gen_range(-3i64..=3)).collect();
+        if let Some(c) = crate::gen::craft_from(n, s1, s2, &mut rng) {
+            let body = crate::refs::spec::compress(&c.s2, l).unwrap();
+            let mut sb = vec![0x50 | V::LOGN];
+            sb.extend_from_slice(&c.salt);
+            sb.extend_from_slice(&body);
+            let pkb = crate::refs::spec::pk_encode(&c.h);
+            rep.evaluations += 1;
+            let pq = V::pq_verify(&reframe_to_pq(&sb, V::LOGN), &c.msg, &pkb);
+            let own = monitored(|| match (V::sig_from_bytes(&sb), V::pk_from_bytes(&pkb)) {
+                (Ok(s), Ok(p)) => Some(V::verify(&c.msg, &s, &p)),
+                _ => None,
+            });
+            match (pq, own) {
+                (Some(a), Ok(Some(b))) if a == b => rep.count("crafted_shapes_agreeing_with_reference", 1),
+                (a, b) => rep.violation(
+                    "interop:verdicts-differ-on-a-crafted-signature-shape",
+                    format!("{}: exact-fit signature with a quiet tail: PQClean says {:?}, falcon-rust says {:?}", V::NAME, a, b.ok().flatten()),
+                    json!({"variant": V::NAME, "dir": "crafted-shape", "seed": "", "msg": hex(&c.msg), "sig": hex(&sb), "pk": hex(&pkb)}),
+                ),
+            }
+        }
+    }
+}
+
 pub fn interop(ctx: &Ctx, rep: &mut Report) {
+    crafted_shapes::<F512>(ctx, rep);
+    crafted_shapes::<F1024>(ctx, rep);
+    rep.require("crafted_shapes_agreeing_with_reference", 8);
     if !crate::pool::keygen_responds::<F512>() {
         rep.inconclusive("key generation did not return within 180 s (canary); reported as inconclusive, never as a violation".into());
         return;
